@@ -89,6 +89,14 @@ def run(eng, ctx):
             return ("const", key) if t == ("field", "identity") else None
         s2 = eng.symeval(f.qualname, override=ov)
         rets2 = [e for e in s2.effects if e.kind == "return" and e.handler is None]
+        if len(rets2) > 1:
+            # single-exit form (`try: result = ... except KeyError: result = False` / `return result`): one return per path; the path through the
+            # handler is the one taken exactly when the key is missing from the table
+            on_exc = [e for e in rets2 if any(c[0] == "exc-path" and p for c, p in e.guards)]
+            normal = [e for e in rets2 if e not in on_exc]
+            pick = normal if key in T.msgids else on_exc
+            if len(pick) == 1 and is_const(pick[0].term) and (key in T.msgids or pick[0].term[1] is False):
+                rets2 = pick
         if len(rets2) == 1 and is_const(rets2[0].term):
             if rets2[0].term[1]:
                 true_keys.add(key)
@@ -107,6 +115,8 @@ def run(eng, ctx):
     idx_sub = any(mentions(e.term, lambda s: s[0] == "idx" and s[1][0] == "gval") for e in s3.effects if e.kind == "return")
     if idx_sub:
         hret = [e for e in s3.effects if e.kind == "return" and e.handler is not None]
+        # ... or, in the single-exit form, the return reached through the handler (`except KeyError: result = False` / `return result`)
+        hret += [e for e in s3.effects if e.kind == "return" and e.handler is None and any(c[0] == "exc-path" and p for c, p in e.guards)]
         okh = any(norm(h.type).split(".")[-1] in ("KeyError", "LookupError", "Exception") for h in hs if h.type is not None) and hret and all(is_const(e.term) and e.term[1] is False for e in hret)
         ctx.check(bool(okh), "C15.D5", f.qualname, "missing key yields False", expected="except KeyError: return False", found=f"{len(hs)} handler(s)", **eng.loc(f, f.node))
     else:
